@@ -14,3 +14,4 @@ void CHECKPAT(long id);                                // verify pattern of a li
 void FILLPAT(long id);
 long vrt_probe_count(void);
 #endif
+long vrt_sret_call(void *fn, void *buf);   // returns %rax left by a MEMORY-class-returning parameterless function
